@@ -64,6 +64,11 @@ func CompareStates(a, b *State) (string, string) {
 	if a.Events != b.Events {
 		return "events", fmt.Sprintf("events of height %d: %q vs %q", a.Height, a.Events, b.Events)
 	}
+	// the records of the app DB (height, hash, validators, block times, versions, emission, reward price):
+	// they are not part of the state tree, but later blocks are computed from them
+	if a.Key != "" && b.Key != "" && a.Key != b.Key {
+		return "appdb-records", fmt.Sprintf("the app-DB records differ at height %d (digest %s vs %s)", a.Height, a.Key, b.Key)
+	}
 	return "", ""
 }
 
